@@ -2,48 +2,53 @@
 (* Trace specification for C07 (validate direction): ledger of an MLR model recorded by harness/c07_drv.c on real      *)
 (* regression problems (X 4..50 x 1..10, cond([1 X]) <= 1e4, 1..4 responses).  Residuals are in units of 1e-12,         *)
 (* R2 and RSS/TSS in units of 1e-9.  The bound of every identity is a function of the logged condition number:           *)
-(*   TolK = 1e-8 + 1e-14 * kappa^2     (normal equations solved by elimination lose about kappa^2 * machine epsilon;      *)
-(*                                       surveyed on the unchanged tree: worst observed / bound < 1e-2, see c07.py)      *)
+(*   Bound = (1e-8 + 2e-13 * kappa^2) * amp, capped at 1e-3                                                              *)
+(* (normal equations solved by explicit inversion lose about kappa^2 * machine epsilon relative to |y|; amp = |y| /      *)
+(*  |y - mean| converts that to the centred norm the identities are stated in; surveyed on the unchanged tree over       *)
+(*  3000 models with cond up to 1e4: worst observed / bound = 7e-3, see c07.py).  Index, sign, denominator and          *)
+(*  intercept mistakes have relative effect >= 1e-2 and saturate the quantiser (2e-3) above the cap.                    *)
 (* For tiny integer-valued cases (event Tiny) TLC recomputes the exact coefficients with the operators of Mlr.tla.       *)
 EXTENDS Mlr, TraceBase
 CONSTANT PropOnly
-VARIABLES l, kappa, nresp, seenStat
-tvars == <<cid, X, y, ok, l, kappa, nresp, seenStat>>
+VARIABLES l, kappa, amp, nresp, seenStat
+tvars == <<cid, X, y, ok, l, kappa, amp, nresp, seenStat>>
 Ev == Tr[l]
 Step == l' = l + 1
 At(name) == l <= Len(Tr) /\ Ev.e = name
-Same == UNCHANGED <<cid, X, y, ok, kappa, nresp, seenStat>>
+Same == UNCHANGED <<cid, X, y, ok, kappa, amp, nresp, seenStat>>
 
 TolAlg == 10000
 One == 1000000000
-TolK(kp) == TolAlg + (kp * kp) \div 100          \* 1e-12 units; kp <= 10000 so kp*kp fits 32 bits
-Tol9(kp) == TolK(kp) \div 1000 + 2               \* the same bound in 1e-9 units, plus the two roundings
+Cap == 1000000000                                \* 1e-3: below the quantiser's saturation value, so a saturated residual is always rejected
+TolK(kp) == TolAlg + (kp * kp) \div 5            \* 1e-12 units; kp <= 10000 so kp*kp fits 32 bits
+Bound(kp, am) == IF am > Cap \div TolK(kp) THEN Cap ELSE TolK(kp) * am                  \* the product is formed only when it is <= Cap
+Tol9(kp, am) == Bound(kp, am) \div 1000 + 2      \* the same bound in 1e-9 units, plus the two roundings
 AbsI(v) == IF v < 0 THEN -v ELSE v
 RespOK(j) == j \in 0..(nresp - 1)
 
-TInit == l = 1 /\ cid = 0 /\ X = <<>> /\ y = <<>> /\ ok = FALSE /\ kappa = 1 /\ nresp = 0 /\ seenStat = {}
-TReset == At("Reset") /\ Step /\ nresp' = 0 /\ kappa' = 1 /\ seenStat' = {} /\ UNCHANGED <<cid, X, y, ok>>
+TInit == l = 1 /\ cid = 0 /\ X = <<>> /\ y = <<>> /\ ok = FALSE /\ kappa = 1 /\ amp = 1 /\ nresp = 0 /\ seenStat = {}
+TReset == At("Reset") /\ Step /\ nresp' = 0 /\ kappa' = 1 /\ amp' = 1 /\ seenStat' = {} /\ UNCHANGED <<cid, X, y, ok>>
 TSkip == At("Skip") /\ Step /\ Same
 \* the quantifier of the property
 TCase == /\ At("Case") /\ Step
-         /\ Ev.n \in 4..50 /\ Ev.p \in 1..10 /\ Ev.p + 1 < Ev.n /\ Ev.ny \in 1..4 /\ Ev.kappa \in 1..10000
-         /\ nresp' = Ev.ny /\ kappa' = Ev.kappa /\ seenStat' = {} /\ UNCHANGED <<cid, X, y, ok>>
-TCoef == At("Coef") /\ Step /\ Same /\ RespOK(Ev.j) /\ Ev.err <= TolK(kappa)
-TNormal == At("Normal") /\ Step /\ Same /\ RespOK(Ev.j) /\ Ev.err <= TolK(kappa)
+         /\ Ev.n \in 4..50 /\ Ev.p \in 1..10 /\ Ev.p + 1 < Ev.n /\ Ev.ny \in 1..4 /\ Ev.kappa \in 1..10000 /\ Ev.amp >= 1
+         /\ nresp' = Ev.ny /\ kappa' = Ev.kappa /\ amp' = Ev.amp /\ seenStat' = {} /\ UNCHANGED <<cid, X, y, ok>>
+TCoef == At("Coef") /\ Step /\ Same /\ RespOK(Ev.j) /\ Ev.err <= Bound(kappa, amp)
+TNormal == At("Normal") /\ Step /\ Same /\ RespOK(Ev.j) /\ Ev.err <= Bound(kappa, amp)
 \* reported R2 and SDEC are the definitions, R2 inside [0,1], residuals sum to zero, residual table = fitted - observed
 TStat == /\ At("Stat") /\ Step /\ RespOK(Ev.j) /\ Ev.j \notin seenStat
-         /\ Ev.r2 >= 0 - Tol9(kappa) /\ Ev.r2 <= One + Tol9(kappa)
-         /\ AbsI(Ev.r2 - (One - Ev.rssn)) <= Tol9(kappa)
-         /\ Ev.r2gap <= TolK(kappa) /\ Ev.sdecgap <= TolK(kappa) /\ Ev.sumres <= TolK(kappa) /\ Ev.residgap <= TolAlg
+         /\ Ev.r2 >= 0 - Tol9(kappa, amp) /\ Ev.r2 <= One + Tol9(kappa, amp)
+         /\ AbsI(Ev.r2 - (One - Ev.rssn)) <= Tol9(kappa, amp)
+         /\ Ev.r2gap <= Bound(kappa, amp) /\ Ev.sdecgap <= Bound(kappa, amp) /\ Ev.sumres <= Bound(kappa, amp) /\ Ev.residgap <= TolAlg
          /\ (PropOnly \/ Ev.residsign = 1)              \* Impl: the stored residual is fitted - observed (sign convention of the present code)
-         /\ seenStat' = seenStat \cup {Ev.j} /\ UNCHANGED <<cid, X, y, ok, kappa, nresp>>
-TRecover == At("Recover") /\ Step /\ Same /\ RespOK(Ev.j) /\ Ev.err <= TolK(kappa)
+         /\ seenStat' = seenStat \cup {Ev.j} /\ UNCHANGED <<cid, X, y, ok, kappa, amp, nresp>>
+TRecover == At("Recover") /\ Step /\ Same /\ RespOK(Ev.j) /\ Ev.err <= Bound(kappa, amp)
 TPred == At("Pred") /\ Step /\ Same /\ Ev.shape = 1 /\ Ev.err <= TolAlg
 TNewStat == At("NewStat") /\ Step /\ Same /\ RespOK(Ev.j) /\ Ev.r2gap <= TolAlg /\ Ev.rmsegap <= TolAlg
 \* paired runs; the second model has its own condition number (logged), both inside the quantifier
 TPair == /\ At("Pair") /\ Step /\ Same
-         /\ Ev.kind \in {"affine", "remix"} /\ Ev.kappa2 \in 1..10000
-         /\ Ev.err <= TolK(IF Ev.kappa2 > kappa THEN Ev.kappa2 ELSE kappa)
+         /\ Ev.kind \in {"affine", "remix"} /\ Ev.kappa2 \in 1..10000 /\ Ev.amp2 >= 1
+         /\ Ev.err <= Bound(IF Ev.kappa2 > kappa THEN Ev.kappa2 ELSE kappa, Ev.amp2)
 TReuse == At("Reuse") /\ Step /\ Same /\ Ev.shape = 1 /\ Ev.err <= TolAlg
 \* tiny integer case: b4 = coefficients reported by the library in units of 1e-4; exact coefficients recomputed here
 TTiny == /\ At("Tiny") /\ Step /\ Same
